@@ -1159,8 +1159,12 @@ class C01(fw.Prop):
         pr = ctx.__dict__.get("c01_prem", [])
         ctx.stats["premise_checked_programs"] = len(pr)
         if pr:
-            res = fw.eval_cases(ctx.work, self.run_module, [x[1] for x in pr], shard=60, checks=("prem",), tag="prem")
+            res = fw.eval_cases(ctx.work, self.run_module, [x[1] for x in pr], shard=60,
+                                checks=("prem", "prem_ord", "prem_lin"), tag="prem")
             ctx.stats["premise_failures"] = len(res["prem"])
+            # which of the liveness-aware premises (spec/Builder2LiveS.v: ord_prog2, lin_prog2) fail, if any
+            ctx.stats["premise_failures_ord_prog2"] = len(res["prem_ord"])
+            ctx.stats["premise_failures_lin_prog2"] = len(res["prem_lin"])
             for i in res["prem"][:3]:
                 out.append(("premise-not-met", "an in-model program the generator believes well formed does not satisfy "
                             "the well-formedness premises (wt_prog ...) of the theorems of props/C01.v",
